@@ -57,10 +57,12 @@ type hPre struct {
 	ViaOnly     bool // names the source inside a closure's use clause: a plain variable only
 }
 
-const hDecl = `function hp_nop{F}(&$x) { }
-function hp_set{F}(&$x) { $x = 'H'; }
-function hp_same{F}(&$x) { $x = $x; }
+// the three basic callees live in the prelude (loaded once per interpreter)
+const hPrelude = `function hp_nop(&$x) { }
+function hp_set(&$x) { $x = 'H'; }
+function hp_same(&$x) { $x = $x; }
 `
+const hDecl = ""
 
 func hp(name, stmt string) hPre { return hPre{Name: name, Decl: hDecl, Stmt: stmt} }
 func hb(name, stmt string, funcs ...string) hPre {
@@ -69,18 +71,18 @@ func hb(name, stmt string, funcs ...string) hPre {
 
 var hPres = []hPre{
 	// ---- an element bound to a by-reference parameter of a user callable
-	hp("fnNop", "hp_nop{F}({N}{T});"),
-	hp("fnSet", "hp_set{F}({N}{T});"),
-	hp("fnSame", "hp_same{F}({N}{T});"),
-	hp("fnTwice", "hp_set{F}({N}{T}); hp_nop{F}({N}{T});"),
-	hp("fnBoth", "hp_nop{F}({N}{T}); hp_nop{F}({N}{T1});"),
-	hp("fnNamed", "hp_set{F}(x: {N}{T});"),
-	hp("fnLoop", "for ($hi = 0; $hi < 3; $hi++) { hp_same{F}({N}{T}); }"),
+	hp("fnNop", "hp_nop({N}{T});"),
+	hp("fnSet", "hp_set({N}{T});"),
+	hp("fnSame", "hp_same({N}{T});"),
+	hp("fnTwice", "hp_set({N}{T}); hp_nop({N}{T});"),
+	hp("fnBoth", "hp_nop({N}{T}); hp_nop({N}{T1});"),
+	hp("fnNamed", "hp_set(x: {N}{T});"),
+	hp("fnLoop", "for ($hi = 0; $hi < 3; $hi++) { hp_same({N}{T}); }"),
 	{Name: "fnSecond", Decl: "function hp_2{F}($z, &$x) { $x = 'H'; }", Stmt: "hp_2{F}(0, {N}{T});"},
 	{Name: "fnDefault", Decl: "function hp_d{F}(&$x = null, $z = 0) { $x = 'H'; }", Stmt: "hp_d{F}({N}{T});"},
 	{Name: "fnTyped", Decl: "function hp_t{F}(mixed &$x) { $x = 'H'; }", Stmt: "hp_t{F}({N}{T});", MayNotParse: true},
 	{Name: "fnVariadic", Decl: "function hp_v{F}(&...$xs) { $xs[0] = 'H'; }", Stmt: "hp_v{F}({N}{T}, {N}{T1});", MayNotParse: true},
-	{Name: "fnForward", Decl: hDecl + "function hp_f{F}(&$x) { hp_set{F}($x); }", Stmt: "hp_f{F}({N}{T});"},
+	{Name: "fnForward", Decl: "function hp_f{F}(&$x) { hp_set($x); }", Stmt: "hp_f{F}({N}{T});"},
 	{Name: "fnRecursive", Decl: "function hp_r{F}(&$x, $n) { if ($n > 0) { hp_r{F}($x, $n - 1); } else { $x = 'H'; } }", Stmt: "hp_r{F}({N}{T}, 2);"},
 	{Name: "fnThrows", Decl: "function hp_x{F}(&$x) { $x = 'H'; throw new \\Exception('hx'); }", Stmt: "try { hp_x{F}({N}{T}); } catch (\\Exception $he) { }"},
 	{Name: "fnReturnsRef", Decl: "function hp_rr{F}(&$x) { return $x; }", Stmt: "$hv = hp_rr{F}({N}{T});"},
@@ -89,7 +91,7 @@ var hPres = []hPre{
 	{Name: "fnRefInCallee", Decl: "function hp_ri{F}(&$x) { $q = &$x; $q = 'H'; }", Stmt: "hp_ri{F}({N}{T});"},
 	{Name: "fnInnerArray", Decl: "function hp_ia{F}(&$x) { $x[0] = $x[0]; }", Stmt: "hp_ia{F}({N}{P});"},
 	{Name: "fnInnerAppendPop", Decl: "function hp_ap{F}(&$x) { $x[] = 'H'; array_pop($x); }", Stmt: "hp_ap{F}({N}{P});"},
-	{Name: "fnInnerNop", NeedP: true, Decl: hDecl, Stmt: "hp_nop{F}({N}{P});"},
+	{Name: "fnInnerNop", NeedP: true, Decl: hDecl, Stmt: "hp_nop({N}{P});"},
 	{Name: "method", Decl: "class HPC{F} { function m(&$x) { $x = 'H'; } }", Stmt: "(new HPC{F})->m({N}{T});"},
 	{Name: "methodVar", Decl: "class HPC{F} { function m(&$x) { $x = 'H'; } }", Stmt: "$ho = new HPC{F}; $ho->m({N}{T});"},
 	{Name: "methodThis", Decl: "class HPC{F} { function m(&$x) { $this->n($x); } function n(&$y) { $y = 'H'; } }", Stmt: "(new HPC{F})->m({N}{T});"},
@@ -101,9 +103,9 @@ var hPres = []hPre{
 	{Name: "closureCall", Stmt: "(function(&$x) { $x = 'H'; })({N}{T});"},
 	{Name: "closureVar", Stmt: "$hf = function(&$x) { $x = 'H'; }; $hf({N}{T}); unset($hf);"},
 	{Name: "arrowFn", Stmt: "$hf = fn(&$x) => 0; $hf({N}{T});", MayNotParse: true},
-	{Name: "callUserFunc", Decl: hDecl, Stmt: "call_user_func('hp_set{F}', {N}{T});", Funcs: []string{"call_user_func"}},
-	{Name: "callUserFuncArray", Decl: hDecl, Stmt: "call_user_func_array('hp_set{F}', [&{N}{T}]);", Funcs: []string{"call_user_func_array"}, MayNotParse: true},
-	{Name: "stringCallable", Decl: hDecl, Stmt: "$hf = 'hp_set{F}'; $hf({N}{T});"},
+	{Name: "callUserFunc", Decl: hDecl, Stmt: "call_user_func('hp_set', {N}{T});", Funcs: []string{"call_user_func"}},
+	{Name: "callUserFuncArray", Decl: hDecl, Stmt: "call_user_func_array('hp_set', [&{N}{T}]);", Funcs: []string{"call_user_func_array"}, MayNotParse: true},
+	{Name: "stringCallable", Decl: hDecl, Stmt: "$hf = 'hp_set'; $hf({N}{T});"},
 	{Name: "generator", Decl: "function hp_g{F}(&$x) { $x = 'H'; yield 1; }", Stmt: "foreach (hp_g{F}({N}{T}) as $hy) { }"},
 	{Name: "generatorAbandoned", Decl: "function hp_g{F}(&$x) { yield 1; $x = 'H'; yield 2; }", Stmt: "foreach (hp_g{F}({N}{T}) as $hy) { break; }"},
 	// ---- every built-in with a by-reference parameter (std/: NewParameterReference), on the element / its array
@@ -139,13 +141,13 @@ var hPres = []hPre{
 	{Name: "listRef", Stmt: "list(&$hx) = {N}{P}; unset($hx);", MayNotParse: true},
 	// ---- a reference that lives in a by-value callee / in an alias of the source
 	{Name: "refInByValCallee", Decl: "function hp_bv{F}($p) { $q = &$p{T}; $q = 'H'; return 0; }", Stmt: "hp_bv{F}({N});"},
-	{Name: "refParamInByValCallee", Decl: hDecl + "function hp_bp{F}($p) { hp_set{F}($p{T}); return 0; }", Stmt: "hp_bp{F}({N});"},
-	{Name: "refParamOfCopy", Decl: hDecl, Stmt: "$hc = {N}; hp_set{F}($hc{T}); unset($hc);"},
-	{Name: "globalAlias", Global: true, Decl: hDecl + "function hp_gl{F}() { global $h; hp_set{F}($h{T}); }", Stmt: "hp_gl{F}();"},
-	{Name: "globalAliasRead", Global: true, Decl: hDecl + "function hp_gl{F}() { global $h; $x = $h; hp_set{F}($x{T}); }", Stmt: "hp_gl{F}();"},
-	{Name: "staticAlias", Decl: hDecl + "function hp_sa{F}($set) { static $keep = null; $keep = $set; hp_set{F}($keep{T}); return 0; }", Stmt: "hp_sa{F}({N});"},
+	{Name: "refParamInByValCallee", Decl: "function hp_bp{F}($p) { hp_set($p{T}); return 0; }", Stmt: "hp_bp{F}({N});"},
+	{Name: "refParamOfCopy", Decl: hDecl, Stmt: "$hc = {N}; hp_set($hc{T}); unset($hc);"},
+	{Name: "globalAlias", Global: true, Decl: "function hp_gl{F}() { global $h; hp_set($h{T}); }", Stmt: "hp_gl{F}();"},
+	{Name: "globalAliasRead", Global: true, Decl: "function hp_gl{F}() { global $h; $x = $h; hp_set($x{T}); }", Stmt: "hp_gl{F}();"},
+	{Name: "staticAlias", Decl: "function hp_sa{F}($set) { static $keep = null; $keep = $set; hp_set($keep{T}); return 0; }", Stmt: "hp_sa{F}({N});"},
 	{Name: "wholeByRef", Decl: "function hp_w{F}(&$arr) { $arr{T} = $arr{T}; }", Stmt: "hp_w{F}({N});"},
-	{Name: "wholeByRefParamElem", Decl: hDecl + "function hp_w{F}(&$arr) { hp_set{F}($arr{T}); }", Stmt: "hp_w{F}({N});"},
+	{Name: "wholeByRefParamElem", Decl: "function hp_w{F}(&$arr) { hp_set($arr{T}); }", Stmt: "hp_w{F}({N});"},
 	// ---- the binder is a variable that has gone (known on this tree: RefSlotCount is never decremented)
 	{Name: "refUnset", Explicit: true, Stmt: "$hr = &{N}{T}; unset($hr);"},
 	{Name: "refWriteUnset", Explicit: true, Stmt: "$hr = &{N}{T}; $hr = 'H'; unset($hr);"},
@@ -380,13 +382,13 @@ func (r *runner) hStat(name, what string) {
 //           (B) (prefix × route) pairs, the value passing through `$h`, store written through the copy: all pairs for
 //               8 representative prefixes (also written through the original and placed directly), a rotating third
 //               of the pairs for the others,
-//           (C) 4 representative prefixes × every mutation form along assignment (one also along the by-value
-//               parameter), list and nested, both sides,
+//           (C) 3 representative prefixes × every mutation form along assignment (one also along the by-value
+//               parameter and on a nested shape), both sides,
 //           (D) a seeded sample of the rest.
 // thorough: every (prefix × route × placement × side) under 3 mutation forms on list and nested shapes; every
 //           (prefix × mutation form × side) along assignment on 5 shapes; a larger sample.
 func (r *runner) hEnumerate(full bool, rnd *vh.Rand, sample int) int {
-	have := r.plProbe()
+	have := r.plProbeOnce()
 	n := 0
 	run := func(h hPre, place string, k pKind, s pShape, rt pRoute, m pMut, side string) {
 		if cs := hCase(h, place, k, s, rt, m, side, have); cs != nil {
@@ -414,13 +416,12 @@ func (r *runner) hEnumerate(full bool, rnd *vh.Rand, sample int) int {
 	route := func(n string) pRoute { rt, _ := pRouteByName(n); return rt }
 	places := []string{"via", "direct"}
 	sides := []string{"copy", "orig"}
-	_ = places
 	type ks struct{ k, s string }
 	coreKS := []ks{{"str", "list"}, {"int", "list"}, {"str", "keyed"}, {"str", "nest"}, {"str", "kvlist"}}
 	coreMuts := []string{"store", "cat", "unset", "append", "sortM", "refParamSet"}
 	rep := map[string]bool{"fnSet": true, "fnNop": true, "ctor": true, "sortElem": true, "pregMatch": true,
 		"foreachRefUnset": true, "wholeByRefParamElem": true, "refRebind": true}
-	rep4 := []string{"fnSet", "arrayPushElem", "foreachRefKeyUnset", "refRebind"}
+	rep4 := []string{"fnSet", "arrayPushElem", "refRebind"}
 	// (A)
 	for _, h := range hPres {
 		for _, x := range coreKS {
@@ -498,7 +499,7 @@ func (r *runner) hEnumerate(full bool, rnd *vh.Rand, sample int) int {
 					if rn != "assign" && (!isRep || (!full && h.Name != "fnSet")) {
 						continue
 					}
-					if !full && sn != "list" && sn != "nest" {
+					if !full && sn != "list" && (sn != "nest" || h.Name != "fnSet") {
 						continue
 					}
 					for _, side := range sides {
